@@ -452,25 +452,34 @@ void NiSkinPartition::GenerateTriPartsFromTrueTriangles(const std::vector<Triang
 	triParts.clear();
 	triParts.resize(shapeTris.size(), -1);
 
-	// Make a map from Triangles to their indices in shapeTris
-	std::unordered_map<Triangle, int> shapeTriInds;
+	// Make a map from Triangles to their indices in shapeTris.
+	// The same triangle can occur more than once in a shape.
+	std::unordered_map<Triangle, std::vector<int>> shapeTriInds;
 
 	int numTris = static_cast<int>(shapeTris.size());
 	for (int triInd = 0; triInd < numTris; ++triInd) {
 		Triangle t = shapeTris[triInd];
 		t.rot();
-		shapeTriInds[t] = triInd;
+		shapeTriInds[t].push_back(triInd);
 	}
 
-	// Set triParts for each partition triangle
+	// Set triParts for each partition triangle: every copy of a triangle
+	// held by a partition claims one shape triangle that is not assigned yet.
 	int numParts = static_cast<int>(partitions.size());
 	for (int partInd = 0; partInd < numParts; ++partInd) {
 		for (const Triangle& pt : partitions[partInd].trueTriangles) {
 			Triangle t = pt;
 			t.rot();
 			auto it = shapeTriInds.find(t);
-			if (it != shapeTriInds.end())
-				triParts[it->second] = partInd;
+			if (it == shapeTriInds.end())
+				continue;
+
+			for (int triInd : it->second) {
+				if (triParts[triInd] < 0) {
+					triParts[triInd] = partInd;
+					break;
+				}
+			}
 		}
 	}
 }
